@@ -25,13 +25,13 @@ Print Assumptions C08_run.
 
 (* a batch within argmax's budget is a command line the kernel accepts (kernel model of ExecLimits.v,
    validated by the execve prober): program, fixed arguments, batch; whatever the environment *)
-Theorem C08_budget_accepted : forall rl env prog fixed batch fn,
+Theorem C08_budget_accepted : forall rl env prog fixed batch fn sb,
   (argmax_args batch <= argmax_budget (kernel_limit rl) env prog fixed)%N ->
   (0 < argmax_budget (kernel_limit rl) env prog fixed)%N \/ batch <> [] ->
   Forall (fun len => (len <= argmax_single)%N) (prog :: fixed ++ batch) ->
   Forall (fun len => (len + 1 <= MAX_ARG_STRLEN)%N) (env_strings env) ->
-  (fn + 1 <= 4096 + 2048)%N ->
-  kernel_accepts rl {| argv := prog :: fixed ++ batch; envp := env_strings env; fname := fn |}.
+  (fn + 1 + sb <= 4096 + 2048)%N ->     (* argmax reserves one page and the POSIX headroom: a "#!" script with a long name goes beyond it (audits/TRIAGE.md D6) *)
+  kernel_accepts rl {| argv := prog :: fixed ++ batch; envp := env_strings env; fname := fn; shebang := sb |}.
 Proof. exact argmax_batch_accepted. Qed.
 Print Assumptions C08_budget_accepted.
 
